@@ -96,11 +96,12 @@ func runC02(c *core.Ctx) {
 
 // ptrTaint: D1.
 func ptrTaint(c *core.Ctx) {
-	uf, _ := unfoldFunc(c)
-	if uf == nil {
+	ui := unfoldInfoOf(c)
+	if ui == nil {
 		c.Undecided("ptr-taint", "hseq.unfold#recursive-call", 0, "unfolding function not found")
 		return
 	}
+	uf := ui.fn
 	an := c.Analyze(uf)
 	if problems(c, "ptr-taint", "hseq.unfold#recursive-call", an) {
 		return
@@ -113,8 +114,8 @@ func ptrTaint(c *core.Ctx) {
 				continue
 			}
 			n++
-			ty := st.A[len(st.A)-3]
-			off := st.A[len(st.A)-1]
+			ty := st.A[ui.catP]
+			off := st.A[ui.offP]
 			accumulates := off.Op == "bin" && off.Aux == "+"
 			if ty.Op == "pure" && strings.HasSuffix(ty.Aux, ".Elem") && accumulates {
 				tainted = true
